@@ -1,6 +1,7 @@
 (* C02  Terminal statuses (Completed, Failed, Cancelled) are final.  Statements only. *)
 From Coq Require Import List NArith ZArith String Bool.
 From DT Require Import GenStatus GenEvent GenMsgType FsmTypes GenFsm Fsm Machine View Caches Msg Node FsmFacts MachineFacts C02Proofs NodeFacts NodeProps.
+From DT Require C02Restart.
 Import ListNotations.
 
 Theorem C02_finality_is_the_three_terminal_statuses :
@@ -41,3 +42,25 @@ Theorem C02_terminal_frame_history :
     exists cs', lookup k (n_chans (run_history n l)) = Some cs' /\ m_chan (cs_m cs') = m_chan (cs_m cs).
 Proof. exact terminal_frame_history. Qed.
 Print Assumptions C02_terminal_frame_history.
+
+(* an incoming restart request for a terminated channel is refused: on such a channel the handler of
+   restart requests is exactly "read the channel and answer" ... *)
+Theorem C02_restart_request_for_terminal_is_only_read_and_refused :
+  forall s k m cs,
+    lookup k (n_chans (s_node s)) = Some cs ->
+    is_final (c_status (m_chan (msync (cs_m cs)))) = true ->
+    run (receive_restart_request k m) s = run (C02Restart.refuse_restart k m) s.
+Proof. exact C02Restart.restart_request_for_terminal_refused. Qed.
+Print Assumptions C02_restart_request_for_terminal_is_only_read_and_refused.
+
+(* ... and the answer is a refusal: the reply is a response for the same transfer that is not
+   accepted, the carrier (network receiver or transport) is told the request failed -- on which it
+   closes, see C09 -- no event, message, transport call or validator call is made *)
+Theorem C02_refusal_reply :
+  forall s k m,
+    let '(x, s') := run (C02Restart.refuse_restart k m) s in
+    snd x = ROther /\
+    match fst x with Some r => g_accepted r = false /\ g_isreq r = false /\ g_tid r = g_tid m | None => False end /\
+    s_out s' = s_out s /\ s_vals s' = s_vals s.
+Proof. exact C02Restart.refusal_reply. Qed.
+Print Assumptions C02_refusal_reply.
